@@ -65,6 +65,9 @@ struct Case {
     right: Vec<Ev>,
     wm: Wm,
     via: Via,
+    /// 1, or the factor by which the window (in seconds), every timestamp offset, every watermark increment and the
+    /// lag were multiplied (minutes, hours, a day, odd factors) before each timestamp was moved by -1, 0 or +1
+    scale: i64,
 }
 
 impl Case {
@@ -122,7 +125,7 @@ fn gen(s: &mut Src, exh: u32, mode: Mode) -> Case {
             let al = exh_alphabet(a);
             Wm::Slots((0..=nl + nr).map(|_| al[s.below(al.len())]).collect())
         };
-        return Case { w_ms, base: 0, cond_le, shared_ids: true, left, right, wm, via: Via::Node };
+        return Case { w_ms, base: 0, cond_le, shared_ids: true, left, right, wm, via: Via::Node, scale: 1 };
     }
     // Random mode uses a FIXED byte layout (every field of every slot is drawn whether it is used or not),
     // so that shrinking one byte changes one feature of the case and never shifts the decoding of the rest.
@@ -184,7 +187,23 @@ fn gen(s: &mut Src, exh: u32, mode: Mode) -> Case {
         1 => Wm::Slots(slots),
         _ => Wm::Derived { lag },
     };
-    Case { w_ms: w_s * 1000 + frac, base, cond_le, shared_ids, left, right, wm, via }
+    // Wide scale, drawn after everything else: one case in four multiplies the window, every timestamp offset, every
+    // watermark increment and the lag by a factor far from the 0..13 unit domain, then moves each timestamp by -1, 0 or
+    // +1, so that pairs sit exactly at, just inside and just outside distance W and evictions happen on the boundary.
+    let mut scale = 1i64;
+    let wide = s.chance(1, 4);
+    let k = s.pick(&[60i64, 3600, 86_400, 1001, 65_537]);
+    let jit: Vec<i64> = (0..2 * MAXN).map(|_| s.below(3) as i64 - 1).collect();
+    if wide {
+        scale = k;
+        for (i, e) in left.iter_mut().enumerate() {
+            e.ts = (base as i64 + (e.ts - base) as i64 * k + jit[i]).max(base as i64) as u64;
+        }
+        for (i, e) in right.iter_mut().enumerate() {
+            e.ts = (base as i64 + (e.ts - base) as i64 * k + jit[MAXN + i]).max(base as i64) as u64;
+        }
+    }
+    Case { w_ms: w_s * scale as u64 * 1000 + frac, base, cond_le, shared_ids, left, right, wm, via, scale }
 }
 
 fn id_of(case: &Case, left: bool, i: usize) -> String {
@@ -446,7 +465,7 @@ fn run_merge(case: &Case, evs: &(Vec<StreamEvent>, Vec<StreamEvent>), refm: &[[b
     for pos in 0..=n {
         if let Wm::Slots(sl) = &case.wm {
             if let Some(d) = sl[pos] {
-                wm_val += d as i64;
+                wm_val += d as i64 * case.scale;
                 let outs = sut.watermark(wm_val);
                 wm_seen = Some(wm_val);
                 if pos < n {
@@ -478,7 +497,7 @@ fn run_merge(case: &Case, evs: &(Vec<StreamEvent>, Vec<StreamEvent>), refm: &[[b
         absorb(outs, false, pos, &mut cnt, &mut dup_at_wm)?;
         if let Wm::Derived { lag } = case.wm {
             max_ts = max_ts.max(ts as i64);
-            wm_val = (max_ts - lag).max(case.base as i64);
+            wm_val = (max_ts - lag * case.scale).max(case.base as i64);
             let outs = sut.watermark(wm_val);
             wm_seen = Some(wm_val);
             if pos + 1 < n {
@@ -671,6 +690,10 @@ fn run_case(case: &Case, ctx: &mut Ctx) -> Verdict {
     }
     match case.wm {
         Wm::Never => ctx.label("wm-never"),
+        Wm::Slots(_) if case.scale > 1 => {
+            ctx.label("wm-slots");
+            ctx.label("wide-scale");
+        }
         Wm::Slots(_) => ctx.label("wm-slots"),
         Wm::Derived { .. } => ctx.label("wm-derived"),
     }
@@ -721,7 +744,7 @@ pub fn property() -> Property {
     Property {
         id: "C14",
         level: "exploration",
-        rule: "generated: pairs of event sequences (0..4 left, 0..4 right; key k1..k3 drawn from 1..3 distinct keys, or no key; timestamp 0..12 or a 0..5 / 0..2 prefix of it, sometimes shifted by 1.7e9; payload 0..2) x window {0,1,3,10 s, sometimes +500 ms} x condition {true, l.v<=r.v} x id scheme {distinct, same ids on both sides}; for every pair ALL merges of the two arrival orders are executed (<= 70). Parts: nowm = no update_watermark call during the run (node); wm = non-decreasing watermark updates between arrivals (positional slots with increments 0..13, or derived from the highest timestamp seen minus a lag); mgr = both through StreamJoinManager (watermark announced for L, R or both) next to a decoy join (L,X); exh-* = exhaustive enumeration of every pair of sequences with n_l+n_r events over {k1,k2,none} x {0,1,3,4} x payload {0,1} x W {0,1,3} x 2 conditions (x every watermark slot assignment over a 2..4 letter increment alphabet) x all merges. Oracle: nested-loop reference join (both keys present and equal, |tl-tr| <= W, condition true); without watermarks the emitted multiset of (left,right) equals the reference for every merge and a final update_watermark(0) emits nothing; with watermarks the emitted pairs are a duplicate-free subset of the reference that contains every pair whose earlier element satisfied watermark - t <= W when the later one arrived. Non-trivial: the reference is non-empty and (a key is shared by >= 2 events on each side, or an event without key is present, or a reference pair sits exactly at distance W); distinct by the whole case (sequences, window, condition, ids, watermark plan, routing).",
+        rule: "generated: pairs of event sequences (0..4 left, 0..4 right; key k1..k3 drawn from 1..3 distinct keys, or no key; timestamp 0..12 or a 0..5 / 0..2 prefix of it, sometimes shifted by 1.7e9; payload 0..2) x window {0,1,3,10 s, sometimes +500 ms} (one case in four: window, timestamp offsets, watermark increments and lag multiplied by 60 / 3600 / 86400 / 1001 / 65537 and every timestamp then moved by -1, 0 or +1) x condition {true, l.v<=r.v} x id scheme {distinct, same ids on both sides}; for every pair ALL merges of the two arrival orders are executed (<= 70). Parts: nowm = no update_watermark call during the run (node); wm = non-decreasing watermark updates between arrivals (positional slots with increments 0..13, or derived from the highest timestamp seen minus a lag); mgr = both through StreamJoinManager (watermark announced for L, R or both) next to a decoy join (L,X); exh-* = exhaustive enumeration of every pair of sequences with n_l+n_r events over {k1,k2,none} x {0,1,3,4} x payload {0,1} x W {0,1,3} x 2 conditions (x every watermark slot assignment over a 2..4 letter increment alphabet) x all merges. Oracle: nested-loop reference join (both keys present and equal, |tl-tr| <= W, condition true); without watermarks the emitted multiset of (left,right) equals the reference for every merge and a final update_watermark(0) emits nothing; with watermarks the emitted pairs are a duplicate-free subset of the reference that contains every pair whose earlier element satisfied watermark - t <= W when the later one arrived. Non-trivial: the reference is non-empty and (a key is shared by >= 2 events on each side, or an event without key is present, or a reference pair sits exactly at distance W); distinct by the whole case (sequences, window, condition, ids, watermark plan, routing).",
         assumptions: vec![
             "event timestamps are in the unit the node compares them in (window duration.as_secs()), i.e. seconds".into(),
             "an event whose key extractor returns None has no join key and joins with nothing (None is not equal to None)".into(),
